@@ -10,6 +10,7 @@ mod loader;
 mod price;
 mod report;
 mod runner;
+mod total;
 mod trace;
 
 fn main() {
@@ -35,6 +36,7 @@ fn main() {
         "literal" => runner::run_records(&opts, literal::replay),
         "literal-space" => runner::run_records(&opts, literal::replay_space),
         "loader" => { let w = workdir.clone(); runner::run_records(&opts, move |i, r| loader::replay(i, r, &w)) }
+        "total" => { let w = workdir.clone(); runner::run_records(&opts, move |i, r| total::replay(i, r, &w)) }
         "syntax" => runner::run_records(&opts, syntax::replay),
         "price" => { let w = workdir.clone(); runner::run_records(&opts, move |i, r| price::replay(i, r, &w)) }
         "report" => { let w = workdir.clone(); runner::run_records(&opts, move |i, r| report::replay(i, r, &w)) }
